@@ -36,6 +36,7 @@ type c02txn struct {
 	uncertain bool // instance-left fault: may have been collected
 	reused    bool // its id was given to a later transaction
 	noReuse   bool // a duplicate end for it is (or was) under way
+	failReq   bool // a request-side processor of a user flow fails for it (injected)
 }
 
 func runC02(s *kernel.Sim) {
@@ -129,15 +130,32 @@ func runC02(s *kernel.Sim) {
 	s.Knobs["flow_with_response_processor"] = withRespFlow
 	if withRespFlow {
 		files["flows/fr.yaml"] = flowDef{
-			Name: "fr", URL: "a.com/*",
-			Procs: []procDef{{Key: "rf", Type: "Filter", Params: [][2]string{{"header", "x-never=1"}}}},
-			Req:   []connDef{{FromStream: "start", ToStream: "end"}},
+			Name: "fr", URL: []string{"a.com/*", "a.com/c"}[tp.Choose(2)], // around the quota's own URL, or on it
+			Procs: []procDef{{Key: "rf", Type: "Filter", Params: [][2]string{{"header", "x-never=1"}}},
+				{Key: "qf", Type: "Filter", Params: [][2]string{{"header", "x-never=1"}}}},
+			Req: []connDef{{FromStream: "start", ToProc: "qf"}, {FromProc: "qf", Cond: "hit", ToStream: "end"},
+				{FromProc: "qf", Cond: "miss", ToStream: "end"}},
 			Resp: []connDef{{FromStream: "start", ToProc: "rf"}, {FromProc: "rf", Cond: "hit", ToStream: "end"},
 				{FromProc: "rf", Cond: "miss", ToStream: "end"}},
 		}.YAML()
 	}
 	failResp := map[string]bool{}
+	// the same on the request side: a processor of the user flow fails after the quota
+	// has admitted the transaction. The gateway is fail-open - the call goes to the
+	// provider all the same - so the transaction is in flight and keeps its slot
+	failReqM := map[string]bool{}
+	added := map[string]bool{} // transaction ids the concurrency quota has taken into its set
+	s.OnEvent = func(kind string, a []string) {
+		if kind == "cq.add" && len(a) >= 2 {
+			added[a[1]] = true
+		}
+	}
 	s.FaultOn = func(point string, a []string) error {
+		if point == "proc.execute" && len(a) == 4 && a[1] == "qf" && failReqM[a[3]] {
+			delete(failReqM, a[3])
+			s.FaultFired("request_processor_failed_after_admission")
+			return fmt.Errorf("injected failure of processor %s", a[1])
+		}
 		if point == "proc.execute" && len(a) == 4 && a[1] == "rf" && failResp[a[3]] {
 			delete(failResp, a[3])
 			s.FaultFired("response_processor_failed")
@@ -269,11 +287,24 @@ func runC02(s *kernel.Sim) {
 			h["x-early"] = "1"
 		}
 		s.Event("request", t.id, path(t.level))
+		if t.failReq {
+			failReqM[t.id] = true
+			delete(added, t.id)
+		}
 		out := env.doRequest(reqMsg(t.id, "GET", "a.com", path(t.level), h))
 		now, seq := s.Now(), s.Seq()
-		if out.Err != nil {
+		failed := t.failReq && !failReqM[t.id]
+		delete(failReqM, t.id)
+		if out.Err != nil && !failed {
 			s.Violate("R1", "execute-error", "ExecuteFlow(request %s) returned an error: %v", t.id, out.Err)
 			return
+		}
+		if failed {
+			s.Event("request_processor_failed", t.id, fmt.Sprint(added[t.id]))
+			if !added[t.id] || out.Early {
+				s.Nontrivial()
+				return // it never got a slot
+			}
 		}
 		if !out.Early {
 			t.admitted, t.admitSeq, t.admitT = true, seq+1, now
@@ -503,7 +534,9 @@ func runC02(s *kernel.Sim) {
 				ops = append(ops, op{1, t, false}, op{2, t, false})
 				s.FaultFired("response_and_proxy_error_overlap")
 			case c == 0 || len(open) == 0:
-				ops = append(ops, op{0, newTxn(), withEarlyFlow && tp.Chance(1, 3)})
+				nt := newTxn()
+				nt.failReq = withRespFlow && !withParent && !childFixed && tp.Chance(1, 6)
+				ops = append(ops, op{0, nt, withEarlyFlow && tp.Chance(1, 3)})
 			case c == 1 || c == 2:
 				t := open[tp.Choose(len(open))]
 				if used[t] {
